@@ -78,7 +78,7 @@ V_DBL = [0.5, 1e308, 3e10, 2.5, 0.1, 0.0, -0.5, 1.5, -1.5, 1.0, -1.0, 2.0, 32767
          18446744073709551616.0, 1e38, 3.4e38, 3.5e38, 1.7976931348623157e308, 5e-324, 1e-320,
          3.5, -3.5, 4294967296.0, 65536.0, -0.0]
 V_STR = ['a', '12', '', 'b', 'ab', '1', ' 7 ', '1.5', '1e5', 'A', 'aa']
-QN = {1: 5, 2: 5, 3: 4, 4: 4, 5: 2}
+QN = {1: 4, 2: 4, 3: 3, 4: 3, 5: 2}
 
 
 def values(tier):
@@ -295,7 +295,7 @@ def oracle(raw):
     -> None (agree / not applicable) | kind"""
     cg, r0 = raw['rt'][0], raw['rt'][1]
     f = raw['folded_rt']
-    if cg[0] == 'gen-exc':
+    if cg[0] == 'gen-exc' or not raw.get('accepted', True):
         return None                      # not a compilable expression
     if f == ['same']:
         return None
@@ -326,7 +326,7 @@ def bound_oracle(raw):
     rb = raw['bound_rt']
     cg = raw['rt'][0]
     ty = raw['fold'][0]
-    if cg[0] != 0 or ty not in (1, 2, 3, 4) or rb[0] != 0:
+    if cg[0] != 0 or ty not in (1, 2, 3, 4) or rb[0] != 0 or not raw.get('accepted', True):
         return None
     if sb[0] == 0:
         return None if rb[1] == [2, sb[1]] else 'value'
@@ -426,61 +426,134 @@ def fn_suites(ctx, exe, cases, label):
     return fn
 
 
+def lit_of_cell(cell):
+    """literal expression holding exactly the value of a run-time cell"""
+    ty, v = cell
+    if ty in (1, 2):
+        return [0, ty, [0, v]]
+    if ty in (3, 4):
+        return [0, ty, [1, v]]
+    return [1, v]
+
+
+def subst_children(c, lits):
+    """c with its non-literal operands replaced by the literals in `lits`"""
+    def sub(e):
+        if e[0] == 4:
+            return [4, sub(e[1])]
+        if e[0] in (2, 3):
+            return lits[json.dumps(e)]
+        return e
+    if c[0] == 4:
+        return [4, subst_children(c[1], lits)]
+    if c[0] == 2:
+        return [2, c[1], sub(c[2]), sub(c[3])]
+    if c[0] == 3:
+        return [3, c[1], sub(c[2])]
+    return c
+
+
+def attribute(items, evaluate):
+    """items: [(expr, raw, which)] with which in 'v' (fold value) / 'b' (static
+    bound).  Names, for each, the innermost operator that misbehaves by itself:
+    an expression is blamed when it still differs after its operands have been
+    replaced by literals holding their RUN-TIME values; otherwise the operand
+    that differs on its own is examined the same way.  -> [(expr, raw, kind)]"""
+    def k_of(raw, which):
+        if raw is None or 'fold' not in raw:
+            return None
+        return oracle(raw) if which == 'v' else bound_oracle(raw)
+    cur = [[c, raw, which] for c, raw, which in items]
+    done = [None] * len(cur)
+    cache = {}
+
+    def ev(exprs):
+        todo, seen = [], set()
+        for e in exprs:
+            k = json.dumps(e)
+            if k not in cache and k not in seen:
+                seen.add(k)
+                todo.append(e)
+        for e, r in zip(todo, evaluate(todo)):
+            cache[json.dumps(e)] = r
+    for _ in range(4):
+        active = [i for i in range(len(cur)) if done[i] is None]
+        if not active:
+            break
+        kids = {}
+        for i in active:
+            kids[i] = [strip_paren(ch) for ch in children(cur[i][0]) if strip_paren(ch)[0] in (2, 3)]
+        ev([k for i in active for k in kids[i]])
+        subs = {}
+        for i in active:
+            if not kids[i]:
+                continue
+            rs = [cache[json.dumps(k)] for k in kids[i]]
+            if all('fold' in r and r['rt'][1][0] == 0 for r in rs):
+                lits = {json.dumps(k): lit_of_cell(r['rt'][1][1]) for k, r in zip(kids[i], rs)}
+                subs[i] = subst_children(cur[i][0], lits)
+        ev(list(subs.values()))
+        for i in active:
+            c, raw, which = cur[i]
+            if not kids[i]:
+                done[i] = (c, raw, k_of(raw, which) or oracle(raw) or bound_oracle(raw))
+                continue
+            # an operand whose run-time cell has another type than its static type
+            # (\\ with a float operand) is the root of whatever happens above it
+            conf = [k for k in kids[i]
+                    if 'fold' in cache[json.dumps(k)] and cache[json.dumps(k)]['rt'][1][0] == 0
+                    and cache[json.dumps(k)]['rt'][1][1][0] != cache[json.dumps(k)]['fold'][0]]
+            if conf:
+                rk = cache[json.dumps(conf[0])]
+                cur[i] = [conf[0], rk, 'v' if k_of(rk, 'v') is not None else which]
+                continue
+            if i in subs:
+                r2 = cache[json.dumps(subs[i])]
+                if k_of(r2, which) is not None:
+                    # misbehaves on correct operands: this operator is at fault,
+                    # with the kind it shows on correct operands
+                    done[i] = (c, raw, k_of(r2, which))
+                    continue
+            bad = [k for k in kids[i] if k_of(cache[json.dumps(k)], 'v') is not None
+                   or (which == 'b' and k_of(cache[json.dumps(k)], 'b') is not None)]
+            if bad:
+                k = bad[0]
+                rk = cache[json.dumps(k)]
+                w2 = which if k_of(rk, which) is not None else ('v' if which == 'b' else 'b')
+                cur[i] = [k, rk, w2]
+            else:
+                # no operand differs on its own (e.g. an unrounded intermediate)
+                done[i] = (c, raw, k_of(raw, which) or oracle(raw) or bound_oracle(raw))
+    for i in range(len(cur)):
+        if done[i] is None:
+            c, raw, which = cur[i]
+            done[i] = (c, raw, k_of(raw, which) or oracle(raw) or bound_oracle(raw))
+    return done
+
+
 def oracle_suite(ctx, exe, fn, label):
-    """model-free property oracle over the results already computed, with
-    narrowing of nested expressions to the innermost differing operator"""
-    pend = []
+    """model-free property oracle over the results already computed"""
+    items = []
     n = 0
     for c, raw in zip(fn.cases, fn.raw):
         k = oracle(raw)
         kb = bound_oracle(raw)
         n += 1
         ctx.bump('oracle:' + ('agree' if k is None else k.split(':')[0]))
-        if k is not None or kb is not None:
-            pend.append((c, raw, k, kb))
-    # narrowing: evaluate the non-literal children of every differing expression
-    cache = {}
-    level = [ch for (c, raw, k, kb) in pend for ch in children(c) if strip_paren(ch)[0] in (2, 3)]
-    for _ in range(3):
-        todo = []
-        for ch in level:
-            key = json.dumps(strip_paren(ch))
-            if key not in cache and key not in [json.dumps(t) for t in todo]:
-                todo.append(strip_paren(ch))
-        if not todo:
-            break
-        res = vlib.run_impl('foldfn.all_case', todo)
-        for t, r in zip(todo, res):
-            cache[json.dumps(t)] = r
-        level = [g for t in todo for g in children(t) if strip_paren(g)[0] in (2, 3)]
-
-    def blame(c, raw, which):
-        """innermost subexpression that itself differs"""
-        for ch in children(c):
-            s = strip_paren(ch)
-            if s[0] in (2, 3):
-                r = cache.get(json.dumps(s))
-                if r is None or 'fold' not in r:
-                    continue
-                if oracle(r) is not None or (which == 'b' and bound_oracle(r) is not None):
-                    return blame(s, r, which)
-        k = oracle(raw) if which == 'v' else bound_oracle(raw)
-        if k is None:
-            # reached through a child that differs in the other respect
-            k = oracle(raw) or bound_oracle(raw)
-        return c, raw, k
-    for c, raw, k, kb in pend:
         if k is not None:
-            bc, braw, bk = blame(c, raw, 'v')
-            op, lt, rt = root_sig(bc, braw)
+            items.append((c, raw, 'v'))
+        if kb is not None:
+            items.append((c, raw, 'b'))
+    res = attribute(items, lambda es: vlib.run_impl('foldfn.all_case', es))
+    for (c, raw, which), (bc, braw, bk) in zip(items, res):
+        op, lt, rt = root_sig(bc, braw)
+        if which == 'v':
             ctx.report(f'C02/fold-differs(op={op},lt={lt},rt={rt},kind={bk})',
                        {'suite': 'fold_oracle', 'expr': describe(c), 'blamed': describe(bc),
                         'case': c, 'unfolded_runs_to': braw['rt'][1],
                         'fold_returns': braw['fold'][1], 'folded_runs_to': braw['folded_rt'],
                         'src': src(c) if expressible(c) else None}, True)
-        if kb is not None:
-            bc, braw, bk = blame(c, raw, 'b')
-            op, lt, rt = root_sig(bc, braw)
+        else:
             ctx.report(f'C02/static-bound-differs(op={op},lt={lt},rt={rt},kind={bk})',
                        {'suite': 'fold_oracle', 'expr': describe(c), 'blamed': describe(bc),
                         'case': c, 'static_bound': braw['fold'][2],
@@ -543,15 +616,19 @@ def level_kind(res):
     return None
 
 
-def levels_suite(ctx, exe, fn, nprog, batch=20):
+def picked(c, seed, permille):
+    """seeded, tier-independent selection: quick's expressions are thorough's"""
+    import hashlib
+    h = hashlib.sha256((str(seed) + json.dumps(c)).encode()).digest()
+    return int.from_bytes(h[:4], 'big') % 1000 < permille
+
+
+def levels_suite(ctx, exe, fn, permille, batch=20):
     """programs at levels 0..3"""
-    # every compilable expression, and one in seven of those the code generator refuses
-    idxs = [i for i, c in enumerate(fn.cases)
-            if expressible(c) and (fn.raw[i]['rt'][0][0] != 'gen-exc' or i % 7 == 0)]
-    order = list(idxs)
-    ctx.rng.shuffle(order)
-    # quick is a prefix of thorough for the same seed
-    order = order[:nprog]
+    # compilable expressions, and one in seven of those the code generator refuses
+    order = [i for i, c in enumerate(fn.cases)
+             if expressible(c) and picked(c, ctx.seed, permille)
+             and (fn.raw[i]['rt'][0][0] != 'gen-exc' or picked(c, ctx.seed + 1, 143))]
     safe, single = [], []
     for i in order:
         raw = fn.raw[i]
@@ -586,33 +663,22 @@ def levels_suite(ctx, exe, fn, nprog, batch=20):
         ctx.bump('levels:single ' + ('agree' if k is None else k[0].split(':')[0]))
         if k is not None:
             pend.append((i, form, text, r, k))
-    # narrowing by the function-level oracle of the subexpressions
-    subs = []
+    # the signature names the innermost subexpression whose compile-time
+    # evaluation differs from its run-time evaluation (function-level oracle,
+    # see attribute) and that difference; 'ctx-<kind>' = nothing differs at
+    # the level of the expression, only the statement around it
+    items = []
     for i, form, text, r, k in pend:
-        for ch in children(fn.cases[i]):
-            s = strip_paren(ch)
-            if s[0] in (2, 3) and s not in subs:
-                subs.append(s)
-    subres = dict(zip([json.dumps(s) for s in subs], vlib.run_impl('foldfn.all_case', subs)))
-    for i, form, text, r, (kind, lv) in pend:
+        raw = fn.raw[i]
+        which = 'v' if (oracle(raw) is not None or form != 'dim') else 'b'
+        items.append((fn.cases[i], raw, which))
+    attr = attribute(items, lambda es: vlib.run_impl('foldfn.all_case', es))
+    for (i, form, text, r, (kind, lv)), (bc, braw, bk) in zip(pend, attr):
         c, raw = fn.cases[i], fn.raw[i]
-        # the signature names the innermost subexpression whose compile-time
-        # evaluation differs from its run-time evaluation (function-level oracle)
-        # and that difference; 'ctx-<kind>' = only the statement context differs
-        bc, braw = c, raw
-        for ch in children(c):
-            s = strip_paren(ch)
-            if s[0] in (2, 3):
-                rr = subres[json.dumps(s)]
-                if 'fold' in rr and (oracle(rr) is not None or
-                                     (form == 'dim' and bound_oracle(rr) is not None)):
-                    bc, braw = s, rr
-                    break
         op, lt, rt = root_sig(bc, braw)
-        fk = oracle(braw)
+        fk = bk
         what = 'fold-differs'
-        if fk is None and form == 'dim' and bound_oracle(braw) is not None:
-            fk = bound_oracle(braw)
+        if oracle(braw) is None and form == 'dim' and bound_oracle(braw) is not None:
             what = 'static-bound-differs'
         if lv >= 2:
             what = 'level2-differs'
@@ -656,7 +722,7 @@ def run(ctx, tier):
     lits = [v for t in (1, 2, 3, 4, 5) for v in vals[t]]
     one += lits
     total, nth = nested_space()
-    nn = 6000 if tier == 'quick' else 90000
+    nn = 1500 if tier == 'quick' else 90000
     # a fixed permutation prefix: quick's sample is a prefix of thorough's
     perm = ctx.rng.sample(range(total), 90000)
     nested = []
@@ -683,10 +749,10 @@ def run(ctx, tier):
     ctx.sample({'suite': 'fold_fn', 'expr': describe(mid)})
     ctx.sample({'suite': 'fold_fn', 'expr': describe(nested[len(nested) // 2])})
     # programs
-    n1 = 500 if tier == 'quick' else 5000
-    n2 = 300 if tier == 'quick' else 3000
+    n1, n2 = 40, 30
     ctx.rule.append(
-        f'fold_levels: {n1} one-level + {n2} two-level source-expressible expressions (seeded prefix), '
+        f'fold_levels: {n1} per mille of the one-level and {n2} per mille of the two-level source-expressible '
+        f'expressions above (selected by a seeded hash of the expression, so quick is a subset of thorough), '
         f'each in the forms PRINT e / v<T> = e: PRINT v / w<T2> = e: PRINT w / CONST c = e: PRINT c / '
         f'DIM a(0 TO e) (bounds 0..40), compiled at levels 0,1,2,3 and run; statements whose '
         f'function-level evaluation neither traps nor differs are batched 20 per program, every '
